@@ -107,7 +107,8 @@ def corr_covariance(res, tier, rng):
         case = cases.physical_case(rng, tier, coupling_kind="diag")
         d, n = case["d"], case["n"]
         v, vk = structured_unitary(rng, d)
-        t0 = cases.make_tempo(case)
+        unique = bool(i % 2)           # both degeneracy settings see rotated bases
+        t0 = cases.make_tempo(case, unique=unique)
         rot = dict(case)
         rot["coupling"] = v @ case["coupling"] @ v.conj().T
         rot["coupling"] = (rot["coupling"] + rot["coupling"].conj().T) / 2
@@ -121,7 +122,7 @@ def corr_covariance(res, tier, rng):
                 lambda t, h=s.hamiltonian: v @ h(t) @ v.conj().T, gammas=s.gammas,
                 lindblad_operators=[(lambda t, l=l: v @ l(t) @ v.conj().T) for l in s.lindblad_operators])
         try:
-            t1 = cases.make_tempo(rot)
+            t1 = cases.make_tempo(rot, unique=unique)
         except AssertionError as e:
             res.disagree("Bath rejects the rotated coupling operator", {"case": case["desc"], "V": vk})
             continue
@@ -129,7 +130,7 @@ def corr_covariance(res, tier, rng):
         d0 = t0.compute(cases.end_time(case), progress_type="silent").states
         d1 = t1.compute(cases.end_time(case), progress_type="silent").states
         meta.append((case["desc"], vk, v, d0, d1))
-        res.count("cov:V=%s:d=%d" % (vk, d))
+        res.count("cov:V=%s:d=%d:unique=%s" % (vk, d, unique))
     out = fw.run_driver("PathSum", lines)
     for i, (desc, vk, v, d0, d1) in enumerate(meta):
         L = desc["d"] ** 2
@@ -172,8 +173,9 @@ def search(res):
                      {"operator_re": o.real.tolist(), "operator_im": o.imag.tolist(),
                       "eigenvalues": ev, "unitarity": r1, "reconstruction": r2, "imag": r3})
     # (b) rotated vs unrotated runs
-    for i in range(6):
-        case = cases.physical_case(rng, "quick", coupling_kind=rng.choice(["diag", "diag-degenerate"]))
+    for i in range(8):
+        case = cases.physical_case(rng, "quick", coupling_kind=rng.choice(["diag", "diag-degenerate"]),
+                                   time_dependent=False)
         d = case["d"]
         v = cases.rand_unitary(rng, d)
         s = case["system"]
@@ -183,15 +185,17 @@ def search(res):
                    system=oqupy.System(v @ s.hamiltonian @ v.conj().T, gammas=s.gammas,
                                        lindblad_operators=[v @ l @ v.conj().T for l in s.lindblad_operators]))
         rot["coupling"] = (rot["coupling"] + rot["coupling"].conj().T) / 2
+        uq = bool(i % 2)
         try:
-            a = cases.make_tempo(case, epsrel=1e-10).compute(cases.end_time(case), progress_type="silent").states
-            b = cases.make_tempo(rot, epsrel=1e-10).compute(cases.end_time(case), progress_type="silent").states
+            a = cases.make_tempo(case, unique=uq, epsrel=1e-10).compute(cases.end_time(case), progress_type="silent").states
+            b = cases.make_tempo(rot, unique=uq, epsrel=1e-10).compute(cases.end_time(case), progress_type="silent").states
         except AssertionError as e:
             res.fail("Bath-rejects-hermitian:rotated-run", {"case": case["desc"], "error": str(e)[:200]})
             continue
         err = max(np.abs(v @ np.array(x) @ v.conj().T - np.array(y)).max() for x, y in zip(a, b))
         if err > 1e-6:
-            res.fail("covariance:Tempo", {"case": case["desc"], "difference": err})
+            res.fail("covariance:Tempo:unique=%s" % uq, {"case": case["desc"], "unique": uq,
+                                                          "difference": err})
 
 
 def run(tier, seed, replay):
